@@ -116,6 +116,8 @@ SPECS["C06"] = {
     "level": "model_checking",
     "groups": [dict(LIBGO, entries=[
         {"name": "VerifC06_DispatchNeverBlocks", "native": False, "quick": {"params": [0], "bound": 3}, "thorough": {"params": [0], "bound": 4}, "expect_reach": ["end", "slot-full", "slot-empty", "unknown"]},
+        {"name": "VerifC06_ReopenedStream", "native": False, "quick": {"params": [0], "flags": ["-preempt", "1"]}, "thorough": {"params": [0], "flags": ["-preempt", "2", "-par", "4"]},
+         "expect_reach": ["end", "cut-inside-body", "exchange-before-loss"]},
         {"name": "VerifC06_AdapterNoHOL", "native": False, "quick": {"params": [1, 2, 3, 4], "flags": ["-preempt", "1"], "procs": 2},
          "thorough": {"params": [3, 4, 5], "flags": ["-preempt", "2", "-par", "5"], "procs": 3}, "expect_reach": ["end", "triple-duplicate"]},
         {"name": "VerifC06_NatsDuplicateContext", "native": False, "flags": ["-timer-preempt=false"], "quick": {"params": [0, 1], "flags": ["-preempt", "1"]}, "thorough": {"params": [0, 1], "flags": ["-preempt", "3"]}},
@@ -253,7 +255,7 @@ SPECS["C16"] = {
         {"name": "VerifC16_Nesting", "quick": {"params": [0, 1, 4, 5, 6, 9, 10], "procs": 7}, "thorough": {"params": list(range(16)), "procs": 8, "flags": ["-par", "2"]},
          "expect_reach": ["end", "value", "error", "added-later"]},
         {"name": "VerifC16_SharedSlice", "quick": {"params": [0]}, "thorough": {"params": [0]}, "expect_reach": ["end", "with-providers", "added-later"]},
-        {"name": "VerifC16_ErrorOnly", "quick": {"params": [0]}, "thorough": {"params": [0]}},
+        {"name": "VerifC16_ErrorOnly", "quick": {"params": [0]}, "thorough": {"params": [0]}, "expect_reach": ["end", "struct-value-error", "zero-code-error"]},
         {"name": "VerifC16_ProcessorAddMiddleware", "quick": {"params": [0]}, "thorough": {"params": [0]}, "expect_reach": ["end", "two-added"]},
     ])],
     "gen_groups": [
